@@ -56,7 +56,7 @@ func TestVerif_C15_ChatMachine(t *testing.T) {
 		if rapid.IntRange(0, 5).Draw(t, "long") == 0 {
 			steps = 160 // enough broadcasts to overflow the 50-entry history
 		}
-		r.run(intentWeights{"join": 4, "leave": 2, "chat": 14, "moderate": 3, "clearchat": 3, "disconnect": 1}, steps)
+		r.run(intentWeights{"join": 4, "leave": 2, "chat": 14, "moderate": 3, "clearchat": 3, "disconnect": 1, "flood": 1}, steps)
 		c15Rec.Case((r.st.chatsDirected > 0 || r.st.spoofs > 0) && r.st.histJoins > 0, r.canon(), r.sample())
 		r.classes(c15Rec)
 	})
